@@ -70,6 +70,12 @@ def run(res, tier, replay):
             for k, nm in enumerate(c.parts): sc.file("in%d.cab" % k, (bytes(rng.choice(b"stub \x00\xff") for _ in range(rng.choice([1, 777, 5000]))) if k == emb else b"") + c.files[nm])
             sc.op("cab_new").op("ledger_now")
             for k in range(n): sc.op("cab_search" if k == emb else "cab_open", "c%d" % k, "in%d.cab" % k)
+            # every third order: the first member of the first part is extracted BEFORE the parts are joined (its folder's decoder is alive
+            # while the join makes the folder longer); all members are extracted after the join as usual
+            # (only when that member lies wholly in the complete blocks of the first part: a failed extraction is C08's business)
+            # (compressed folders read input ahead, into the split block: there the call may fail for want of the next part)
+            fc_ = c.cuts[0]; whole0 = fc_[0] > 0 or fc_[1] == "end" or (c.folders[0].method[0] == "none" and 0 < c.members[0].length <= 32768 * fc_[1])
+            if oi % 3 == 1 and whole0: sc.op("cab_extract", "c0", 0, "outpre0")
             for k in order:
                 if rng.random() < 0.5: sc.op("cab_append", "c%d" % (k - 1), "c%d" % k)
                 else: sc.op("cab_prepend", "c%d" % k, "c%d" % (k - 1))
@@ -134,6 +140,22 @@ def run(res, tier, replay):
         sc.op("cab_extract_all", "c0", "out", 50)
         scns.append(sc); meta.append(("order", 9000, order, c))
         break
+    # directed (own generator state): two-part sets of one stored folder whose second block is cut at the
+    # cabinet boundary; the member that lies in the first block is extracted, THEN the parts are joined, then every member is extracted
+    for di, meth in enumerate((("none",), ("none",))):          # (a compressed folder reads ahead into the split block and may fail before the join)
+        r13b = random.Random(1313 + di)
+        fo = cabfmt.Folder(meth, [cabfmt.Member(b"j%d.bin" % j, data=bytes(r13b.randrange(256) for _ in range(ln))) for j, ln in enumerate([3000, 40000, 30000])])
+        for m_ in fo.members: m_.length = len(m_.data)
+        c = gen.CabCase(); c.folders = [fo]; fo.prepare(r13b)
+        cabs_, names_ = cabfmt.build_set([fo], [(0, 1, 5000)], r13b, names=[b"j1.cab", b"j2.cab"])
+        for cb_, nm_ in zip(cabs_, names_): c.files[nm_.decode()] = cb_; c.parts.append(nm_.decode())
+        c.members = list(fo.members); c.cuts = [(0, 1, 5000)]
+        sc = scenario.Scn()
+        for k, nm in enumerate(c.parts): sc.file("in%d.cab" % k, c.files[nm])
+        sc.op("cab_new").op("ledger_now").op("cab_open", "c0", "in0.cab").op("cab_open", "c1", "in1.cab").op("cab_extract", "c0", 0, "outpre0")
+        sc.op("cab_append" if di == 0 else "cab_prepend", *(("c0", "c1") if di == 0 else ("c1", "c0")))
+        sc.op("cab_list", "c0").op("cab_list", "c1").op("cab_extract_all", "c0", "out", 50, 1).op("cab_close_any", "c1")        # last member first: the live decoder goes on
+        scns.append(sc); meta.append(("order", 9100 + di, (1,), c))
     trs = scenario.run_scenarios(exe, scns)
     nbad = 0; refl = {}
     for t, (kind, s, order, c), sc in zip(trs, meta, scns):
@@ -143,7 +165,9 @@ def run(res, tier, replay):
             continue
         why = None
         lists = [o for o in t.ops if o.name == "cab_list"]
-        exs = [o for o in t.ops if o.name == "cab_extract"]
+        exs = [o for o in t.ops if o.name == "cab_extract" and not (o.outname or "").startswith("outpre")]
+        pre = [o for o in t.ops if o.name == "cab_extract" and (o.outname or "").startswith("outpre")]
+        if s >= 9100: exs = sorted(exs, key=lambda o: int((o.outname or "out0")[3:]))          # (extracted in reverse order there)
         want_files = [(m.name.hex(), m.length) for m in c.members]
         def files_of(op): return [(dict(x.split("=", 1) for x in l.split()[1:])["name"], int(dict(x.split("=", 1) for x in l.split()[1:])["len"])) for l in op.lines if l.startswith(" file ")]
         if kind == "order":
@@ -172,6 +196,9 @@ def run(res, tier, replay):
                 refl.setdefault(key, listing(lists[0]))
                 for o, m in zip(exs, c.members):
                     if o.kv.get("st") != "0" or (o.out or "") != m.data.hex(): why = "member %s extracts wrongly after joining in order %s (st=%s)" % (m.name, order, o.kv.get("st")); break
+                # a member extracted before the join: OK with its bytes when it lies wholly in the first part, otherwise any non-OK status
+                for o in pre:
+                    if o.kv.get("st") != "0" or (o.out or "") != c.members[0].data.hex(): why = "member 0 (wholly in the first part) extracted before the join: st=%s" % o.kv.get("st")
                 l0 = [o for o in t.ops if o.name == "ledger_now"]; ca = [o for o in t.ops if o.name == "cab_close_any"]
                 if not why and l0 and ca and (ca[0].kv.get("open_handles") != "0" or ca[0].kv.get("live_allocs") != l0[0].kv.get("live_allocs")):
                     why = "close() through one member of the joined set left %s handle(s) open and %s allocation(s) (after create: %s)" % (ca[0].kv.get("open_handles"), ca[0].kv.get("live_allocs"), l0[0].kv.get("live_allocs"))
